@@ -507,6 +507,14 @@ fn bombs() -> BigResult {
     for extra in [1usize, 1000, 100_000, 131_072, 131_073, 300_000] {
         one(&format!("zstd frame without content size of CALLDATA_LIMIT+{} zeros", extra), 2, z_compress_nosize(&vec![0u8; L + extra]), None);
     }
+    // frame headers that DECLARE an absurd content size (8-byte size field, single segment): the declared size
+    // must never drive an allocation; the payload is refused like any other oversized one
+    for declared in [1u64 << 63, u64::MAX - 1, (1u64 << 62) + 12345] {
+        let mut f: Vec<u8> = vec![0x28, 0xB5, 0x2F, 0xFD, 0xC0 | 0x20]; // magic, FCS_flag = 3 (8 bytes), single segment
+        f.extend_from_slice(&declared.to_le_bytes());
+        f.extend_from_slice(&[0x01, 0x00, 0x00]); // last block, raw, size 0
+        one(&format!("zstd frame whose header declares {} bytes", declared), 2, f, None);
+    }
     one("zstd frame without content size of 300000 patterned bytes", 2, z_compress_nosize(&(0..300_000usize).map(|i| (i % 251) as u8).collect::<Vec<u8>>()), Some(300_000));
     { // two frames, each announcing 600 KiB
         let f = z_compress_free(&vec![7u8; 600 << 10], 3);
